@@ -107,7 +107,7 @@ func (w *world) urlBases() []urlBase {
 	}
 }
 
-var urlKinds = []string{"url-none", "url-drop", "url-empty", "url-neg", "url-nonnum", "url-huge", "url-zero", "url-label", "url-long", "url-nul", "url-scale", "url-extra", "url-query", "url-arity"}
+var urlKinds = []string{"url-none", "url-drop", "url-empty", "url-neg", "url-nonnum", "url-huge", "url-zero", "url-label", "url-long", "url-nul", "url-scale", "url-extra", "url-query", "url-arity", "url-foreign-uuid"}
 
 var reNum = regexp.MustCompile(`-?\d+`)
 
@@ -126,7 +126,35 @@ func hostileURL(w *world, ub urlBase, m mutSpec) (string, string, bool) {
 		sk = ub.kinds[si]
 	}
 	differs := true
+	if sk == "uuid" {
+		// a UUID segment: short hex strings would be resolved as prefixes of whatever other repositories the server
+		// process holds (state of earlier cases), so only values that cannot be hex prefixes are used, plus the root
+		// of the case's own second repository
+		switch m.Kind {
+		case "url-neg", "url-nonnum", "url-huge", "url-zero", "url-label", "url-arity":
+			segs[si] = []string{"zz", "-1", "g0", "0x", "1_2_3", "~", "0000000000000000000000000000000g", w.root + "0"}[m.B%8]
+			u := "node/" + w.root + "/" + ub.inst + "/" + strings.Join(segs, "/")
+			if query != "" {
+				u += "?" + query
+			}
+			return u, "url-nonnum", true
+		case "url-foreign-uuid":
+			other := w.other
+			if other == "" {
+				other = "ffffffffffffffffffffffffffffffff"
+			}
+			segs[si] = other
+			u := "node/" + w.root + "/" + ub.inst + "/" + strings.Join(segs, "/")
+			if query != "" {
+				u += "?" + query
+			}
+			return u, "url-foreign-uuid", true
+		}
+	}
 	switch m.Kind {
+	case "url-foreign-uuid":
+		kind = "url-none"
+		differs = false
 	case "url-drop":
 		n := 1 + m.B%2
 		if n >= len(segs) {
@@ -452,6 +480,11 @@ func checkMutants(c mutCase) ([]outcome, error) {
 			return stats.Violf(sigFor(b.ep, b.kind, "server-died"), "%s killed the server process: %s", what, msg)
 		}
 		if f == fateNeverIdle {
+			for _, rep := range w.panicReports() {
+				if !strings.HasPrefix(rep, "Panic detected on request") {
+					return stats.Violf(sigFor(b.ep, b.kind, "background-panic-recovered"), "%s: afterwards the server reports a recovered panic outside any request (the worker that recovered has stopped) and its own idle predicates never report idle again: %s", what, summarizeReport(rep))
+				}
+			}
 			return stats.Violf(sigFor(b.ep, b.kind, "never-idle"), "%s: afterwards the server's own idle predicates (Updating / SyncPending) never report idle again: %s", what, msg)
 		}
 		return stats.Violf(sigFor(b.ep, b.kind, "server-wedged"), "%s: the server stopped answering: %s", what, msg)
